@@ -740,7 +740,7 @@ func (e *codecEngine) Generate(c *Ctx) {
 	g := &codecGen{c: c}
 	per := 150
 	if c.Thorough() {
-		per = 1500 // x (every truncation and one corruption per byte of every encoding): ~3 M ops
+		per = 600 // x (every truncation and one corruption per byte of every encoding): ~1.3 M ops
 	}
 	var schemaNames []string
 	for n := range codecSchemaNames {
